@@ -510,7 +510,14 @@ func (in *Interp) external(act *activation, b *ssa.BasicBlock, site token.Pos, n
 	if short == "rangecheck.New" || strings.HasPrefix(short, "frontend.Compiler.") {
 		return mk(short, args)
 	}
-	return in.blob(short, all)
+	res := in.blob(short, all)
+	// an unmodelled callee may write through the pointers it is given: weak update of the pointed local cells
+	for _, a := range all {
+		if a != nil && a.Cell != nil && !strings.HasPrefix(short, "fmt.") && !strings.HasPrefix(short, "sync.") {
+			in.cellWrite(a.Cell, a.CSel, &Val{Mixed: true, Deps: res.Deps})
+		}
+	}
+	return res
 }
 
 func (in *Interp) newHint(act *activation, b *ssa.BasicBlock, site token.Pos, args []*Val) *Val {
